@@ -7,7 +7,7 @@ sys.path.insert(0, os.path.join(os.environ.get("VERIF_REPO", "/repo"), "src"))
 ns = {}
 exec("from pregex.core.pre import Pregex\nfrom pregex.core.classes import *\nfrom pregex.core.tokens import *\n"
      "from pregex.core.exceptions import *\nfrom pregex.core.operators import *\nfrom pregex.core.quantifiers import *\n"
-     "from pregex.core.groups import *\nfrom pregex.core.assertions import *\n", ns)
+     "from pregex.core.groups import *\nfrom pregex.core.assertions import *\nfrom pregex.meta.essentials import *\n", ns)
 srcs = json.load(sys.stdin)
 # evaluation order differs per process (seeded by the hash seed): results must not depend on what was built before
 import random
